@@ -161,8 +161,22 @@ func c19Overlap(c *h.Ctx, n, rounds int) {
 	full = append(full, float64(9))
 	short := full[: len(full)-1 : len(full)-1]
 	docs := []any{full, short}
+	// ... and paths that nest deeply (200 steps in flight per call): what one
+	// evaluation may use does not depend on how many others are under way
+	var deep any = float64(1)
+	for i := 0; i < 200; i++ {
+		deep = map[string]any{"a": deep}
+	}
+	deepChain := strings.Repeat(".a", 200)
 	ptxts := []string{`$[*] ? (@ == 9)`, `$[*] ? (@ < 10)`, `$[last]`, `$.size()`, `strict $[*] ? (@ == 9)`, `$.** ? (@ == 9)`, `$[*] ? (@.x > 150 || @ == 9)`, `$[60 to last]`, `$[*] ? (@ == 9).type()`,
-		`$[last] == 9`, `exists($[*] ? (@ == 9))`, `$[*] > 161`, `$[*].x ? (@ == 161)`, `strict $[63]`}
+		`$[last] == 9`, `exists($[*] ? (@ == 9))`, `$[*] > 161`, `$[*].x ? (@ == 161)`, `strict $[63]`,
+		`$` + deepChain, `strict $` + deepChain + ` == 1`, `$ ? (exists(@` + deepChain + `))`}
+	docsOf := func(pi int) []any {
+		if strings.Contains(ptxts[pi], deepChain) {
+			return []any{deep, deep}
+		}
+		return docs
+	}
 	entries := []string{"exists", "existsormatch", "query", "first"}
 	paths := make([]*path.Path, len(ptxts))
 	base := map[string]string{}
@@ -185,7 +199,7 @@ func c19Overlap(c *h.Ctx, n, rounds int) {
 	for i, t := range ptxts {
 		paths[i] = path.MustParse(t)
 		seq := path.MustParse(t)
-		for di, d := range docs {
+		for di, d := range docsOf(i) {
 			for _, e := range entries {
 				base[fmt.Sprint(i, di, e)] = fpOf(h.CallMonitored(e, seq, d, h.Opts{}, h.NewMon()))
 				c.Eval(1)
@@ -222,7 +236,7 @@ func c19Overlap(c *h.Ctx, n, rounds int) {
 					m.Cause = context.Canceled
 				}
 				<-start
-				o := h.CallMonitored(entry, paths[pi], docs[di], h.Opts{}, m)
+				o := h.CallMonitored(entry, paths[pi], docsOf(pi)[di], h.Opts{}, m)
 				out[g] = res{key: fmt.Sprint(pi, di, entry), got: fpOf(o), cancelled: g == victim, steps: m.Steps}
 			}(g)
 		}
@@ -457,6 +471,9 @@ func runC19(c *h.Ctx) {
 						inputs = append(inputs, in)
 						baseline[in.key()] = c19Exec(basePaths, docs, vars, in, exposed, 0)
 						c.Eval(1)
+						if strings.Contains(baseline[in.key()], "FAULT:") {
+							c.Violate("concurrent-differs", h.F("kind", "hook-fault", "entry", e), fmt.Sprintf("%s(%s) on doc %d, run alone: %s", e, c19Pool[pi], di, baseline[in.key()]), h.Case{Kind: "concurrent", Path: c19Pool[pi], Doc: c19Docs[di], Entry: e, Silent: silent, TZ: tz, Vars: c19Vars})
+						}
 					}
 				}
 			}
